@@ -16,6 +16,8 @@ import (
 
 // C16 - commands fail loudly: no panic and no silent success.
 type C16Case struct {
+	// E2E, when set, is an end-to-end case (the built binary, exit statuses; see c16_e2e_test.go)
+	E2E       *C16E2E     `json:"e2e,omitempty"`
 	Now       int64       `json:"now"`
 	Cmd       string      `json:"cmd"` // view view-raw diff copy sum sum-copy sum-diff generate
 	Files     []TreeFile  `json:"files"`
@@ -35,6 +37,9 @@ type C16Case struct {
 }
 
 func runC16(c C16Case, ev *Evid) (fs []Finding) {
+	if c.E2E != nil {
+		return runC16E2E(*c.E2E, ev)
+	}
 	add := func(key, format string, args ...interface{}) {
 		fs = append(fs, Finding{Property: "C16", Key: key, Detail: fmt.Sprintf(format, args...)})
 	}
@@ -452,6 +457,31 @@ func minInt(a, b int) int {
 }
 
 func genC16(t *rapid.T) C16Case {
+	if os.Getenv("VERIF_CLI") != "" && rapid.IntRange(0, 149).Draw(t, "e2e") == 113 {
+		// the binary itself: a layout whose finest archive keeps at least a minute (the scenarios write values a
+		// few steps old at the real clock)
+		o := defaultLayoutOpts()
+		o.AllowMultiPage = false
+		o.MaxArchives = 3
+		l := genLayout(t, o)
+		if l.Archives[0].Points < 30 {
+			d := 30 - l.Archives[0].Points
+			for i := range l.Archives {
+				l.Archives[i].Points += d * l.Archives[0].Step / l.Archives[i].Step * 2
+			}
+			l.Archives[0].Points = 30
+			for i := 1; i < len(l.Archives); i++ {
+				if need := floorDiv(l.Archives[i-1].Ret(), l.Archives[i].Step) + 1; l.Archives[i].Points < need {
+					l.Archives[i].Points = need
+				}
+			}
+		}
+		e := C16E2E{L: l, Differ: F64(genDyadic(t) + 0.0625)}
+		for n := rapid.IntRange(1, 6).Draw(t, "e2eValues"); n > 0; n-- {
+			e.V = append(e.V, F64(genDyadic(t)))
+		}
+		return C16Case{E2E: &e}
+	}
 	l := genCLILayout(t)
 	now := genNowRealistic(t, l)
 	c := C16Case{Now: now, ArchiveID: -1}
@@ -523,9 +553,16 @@ func TestC16(t *testing.T) {
 	RunProperty(t, Property[C16Case]{
 		NoteCases:   true,
 		ID:          "C16",
-		Rule:        "rapid-generated invocations of all eight subcommands x archive selection (all / each id / out of range) x window (default, narrow, past, future, beyond the finest retention, degenerate) x copy-nan / header / sort / fill x destination absent / identical / perturbed x environment fault (none, text-out below a missing directory, text-out = a directory, text-out = /dev/full, source missing, source corrupt, destination base below a regular file, destination base under /proc, existing destination of another layout, a summed source file of another layout, a matched name that cannot be opened (dangling link), a pattern that matches only directories, read-only destination tree with the command run under the effective uid of 'nobody'), at a controlled clock. Each case runs a baseline (no text-out / destination fault) and, for those faults, the faulty run. Oracle: no panic escapes Execute; a nil return of the baseline implies the effect (view/sum: the expected point records; view-raw: all physical slots for the default range; copy/sum-copy: destination holds the source's / the sum's values; diff/sum-diff: no differing slot exists; generate: file with the requested header) and is impossible with an out-of-range archive id or a missing/corrupt source; the faulty run must fail when the text output cannot be opened, when a non-empty output cannot be written, or when the destination cannot be created. Non-trivial: a fault or a non-default selection/window is present. Distinct = hash of the case.",
+		Rule:        "rapid-generated invocations of all eight subcommands x archive selection (all / each id / out of range) x window (default, narrow, past, future, beyond the finest retention, degenerate) x copy-nan / header / sort / fill x destination absent / identical / perturbed x environment fault (none, text-out below a missing directory, text-out = a directory, text-out = /dev/full, source missing, source corrupt, destination base below a regular file, destination base under /proc, existing destination of another layout, a summed source file of another layout, a matched name that cannot be opened (dangling link), a pattern that matches only directories, read-only destination tree with the command run under the effective uid of 'nobody'), at a controlled clock; plus end-to-end cases in which the built cmd/whispertool binary is run (29 invocations: successes, missing inputs, bad archive ids, unopenable text-out, layout mismatches, existing generate target, unknown subcommand or option, missing required option, invalid option values) and judged by its exit status (0 = did its work, 1 = difference found, 2 = failure with a message on stderr). Each case runs a baseline (no text-out / destination fault) and, for those faults, the faulty run. Oracle: no panic escapes Execute; a nil return of the baseline implies the effect (view/sum: the expected point records; view-raw: all physical slots for the default range; copy/sum-copy: destination holds the source's / the sum's values; diff/sum-diff: no differing slot exists; generate: file with the requested header) and is impossible with an out-of-range archive id or a missing/corrupt source; the faulty run must fail when the text output cannot be opened, when a non-empty output cannot be written, or when the destination cannot be created. Non-trivial: a fault or a non-default selection/window is present. Distinct = hash of the case.",
 		Assumptions: []string{"checks run as root: permission faults are produced by ENOTDIR / EISDIR / /proc / /dev/full, and by temporarily switching the effective uid to 65534 for the read-only destination"},
 		Gen:         genC16,
 		Run:         runC16,
+		Fixed: func() []C16Case {
+			// two end-to-end cases in every run (29 invocations of the built binary each, judged by exit status)
+			return []C16Case{
+				{E2E: &C16E2E{L: Layout{Archives: []Arch{{Step: 1, Points: 120}, {Step: 60, Points: 60}}, Method: 1, XFF: 0.5}, V: []F64{1, 2.5, -3}, Differ: 7.25}},
+				{E2E: &C16E2E{L: Layout{Archives: []Arch{{Step: 10, Points: 360}}, Method: 2, XFF: 0}, V: []F64{42}, Differ: -1}},
+			}
+		},
 	})
 }
